@@ -109,6 +109,11 @@ type Listener struct {
 	ReadBucket  *Bucket
 	WriteBucket *Bucket
 
+	// conns counts the accepted connections that have not been closed yet; the
+	// shared buckets stay usable until the last of them is gone.
+	conns     sync.WaitGroup
+	closeOnce sync.Once
+
 	mu            sync.RWMutex
 	latency       time.Duration
 	GlobalBuckets map[string]*Bucket
@@ -238,15 +243,25 @@ func (l *Listener) Accept() (net.Conn, error) {
 		tconn.SetKeepAlive(true)
 		tconn.SetKeepAlivePeriod(3 * time.Minute)
 	}
-	return l.GetTrafficShapedConn(oc), nil
+	lc := l.GetTrafficShapedConn(oc)
+	l.conns.Add(1)
+	lc.accepted = true
+	return lc, nil
 }
 
-// Close closes the read and write buckets along with the underlying listener.
+// Close closes the underlying listener. The read and write buckets are shared
+// with the connections accepted so far, which may still be writing responses:
+// they are closed once the last of those connections has been closed.
 func (l *Listener) Close() error {
-	defer log.Debugf("trafficshape: closed read/write buckets and connection")
+	defer log.Debugf("trafficshape: closed listener")
 
-	l.ReadBucket.Close()
-	l.WriteBucket.Close()
+	l.closeOnce.Do(func() {
+		go func() {
+			l.conns.Wait()
+			l.ReadBucket.Close()
+			l.WriteBucket.Close()
+		}()
+	})
 
 	return l.Listener.Close()
 }
